@@ -39,6 +39,10 @@ type Config struct {
 	PermuteMaps bool // permute map iteration order (else canonical order)
 	Stick       int  // weight of "continue the goroutine that ran last"
 	MaxFragment int  // 0: whole frames; n>0: deliver frames in fragments of up to n bytes
+	// Slow: goroutines whose logical id contains one of these substrings are
+	// scheduled ~30x less often than the others (a slow party: deep reorderings
+	// that uniform random choice practically never produces).
+	Slow []string
 }
 
 // G is the simulator's view of one goroutine.
@@ -472,16 +476,24 @@ func (s *Sim) enabled() []Action {
 	}
 	mu.Unlock()
 	// default first: the goroutine that ran last
+	w := func(id string, base int) int {
+		for _, p := range s.Cfg.Slow {
+			if p != "" && strings.Contains(id, p) {
+				return 1
+			}
+		}
+		return base
+	}
 	for _, id := range ids {
 		if id == s.lastRun {
 			id := id
-			acts = append(acts, Action{Key: "run:" + id, Kind: "run", Weight: 3 * s.Cfg.Stick, Do: func() { s.release(id) }})
+			acts = append(acts, Action{Key: "run:" + id, Kind: "run", Weight: w(id, 30*s.Cfg.Stick), Do: func() { s.release(id) }})
 		}
 	}
 	for _, id := range ids {
 		if id != s.lastRun {
 			id := id
-			acts = append(acts, Action{Key: "run:" + id, Kind: "run", Weight: 3, Do: func() { s.release(id) }})
+			acts = append(acts, Action{Key: "run:" + id, Kind: "run", Weight: w(id, 30), Do: func() { s.release(id) }})
 		}
 	}
 	acts = append(acts, s.Net.actions()...)
